@@ -74,9 +74,13 @@ def scenario(cachejit, argon, ks_inputs, thorough, idx, seed=1):
             L.append('CreateVm v1 %s c1 none v2=%d hard=%d secure=%d' % (kind, v2, hard, sec))
             L += ['Hash v1 %s key=K1' % nm for nm in names]
             L.append('DestroyVm v1')
-    # second key on the same cache object (re-keyed), a few configurations
-    L += ['InitCache c1 K2', 'CreateVm v1 CL c1 none v2=0 hard=1 secure=1', 'Hash v1 I1 key=K2', 'DestroyVm v1',
+    # the same cache object re-keyed K1 -> K2 -> K1 under two VMs that stay alive and are re-bound with randomx_vm_set_cache
+    # (a configuration must not differ in what it remembers of an earlier binding), and fresh VMs on the re-keyed cache
+    L += ['CreateVm v2 CL c1 none v2=0 hard=0 secure=0', 'Hash v2 I1 key=K1', 'CreateVm v3 IL c1 none v2=1 hard=0 secure=0', 'Hash v3 I2 key=K1']
+    L += ['InitCache c1 K2', 'SetCache v2 c1', 'Hash v2 I1 key=K2', 'SetCache v3 c1', 'Hash v3 I2 key=K2',
+          'CreateVm v1 CL c1 none v2=0 hard=1 secure=1', 'Hash v1 I1 key=K2', 'DestroyVm v1',
           'CreateVm v1 IL c1 none v2=1 hard=1 secure=0', 'Hash v1 I2 key=K2', 'DestroyVm v1']
+    L += ['InitCache c1 K1', 'SetCache v2 c1', 'Hash v2 I2 key=K1', 'SetCache v3 c1', 'Hash v3 I1 key=K1', 'DestroyVm v2', 'DestroyVm v3']
     L += ['ReleaseDataset d1', 'ReleaseCache c1']
     return '\n'.join(L) + '\n'
 
@@ -84,13 +88,16 @@ def scenario(cachejit, argon, ks_inputs, thorough, idx, seed=1):
 def to_cfg_lines(trace, cachejit, argon, build='default'):
     out = []
     cur = {}
+    byvm = {}
     for l in trace:
         ev = json.loads(l)
         if ev['e'] == 'CreateVm':
             cur = ev
+            byvm[ev.get('v')] = ev
             out.append(json.dumps({'e': 'vm', 'flags': ev['flags'], 'ok': ev['ok'], 'v2': ev.get('v2', False), 'clsCompiled': ev.get('clsCompiled'), 'clsLight': ev.get('clsLight'),
                                    'clsSoftAes': ev.get('clsSoftAes'), 'clsSecure': ev.get('clsSecure'), 'clsLarge': ev.get('clsLarge')}))
         elif ev['e'] == 'Hash':
+            cur = byvm.get(ev.get('v'), cur)
             out.append(json.dumps({'e': 'hash', 'key': ev['key'], 'input': ev['in'], 'v2': bool(cur.get('flags', 0) & V2), 'out': ev['out'], 'ref': ev['fresh'],
                                    'vmflags': cur.get('flags'), 'cachejit': bool(cachejit), 'argon': ARGON[argon], 'build': build}))
         elif ev['e'] in ('Crash', 'Timeout', 'Exception', 'HarnessExit'):
@@ -113,7 +120,7 @@ def run():
     scens = []
     for rep in range(reps):
         for idx, (cj, ar) in enumerate(cachecfgs):
-            ks = (idx + rep * 3 + ck.seed) % nks
+            ks = 2 if (idx == 0 and rep == 0) else (idx + rep * 3 + ck.seed) % nks      # scenario 0: the pair with the empty key
             iset = (idx + rep + ck.seed) % len(apiscen.INPUTSETS)
             scens.append({'text': scenario(cj, ar, None, ck.thorough, idx + rep, ck.seed), 'ks': ks, 'iset': iset, 'cj': cj, 'ar': ar, 'idx': idx + rep})
     bulk = {}
